@@ -6,6 +6,7 @@ import (
 	"errors"
 	"fmt"
 	"io"
+	"runtime"
 	"strings"
 	"testing"
 	"testing/synctest"
@@ -356,5 +357,92 @@ func TestScripts(t *testing.T) {
 			ev.Label("consumer_missed_update")
 		}
 		ev.Case(oc.shortOrFail > 0 && oc.missed > 0, ev.Hash(s.render()), s.render)
+	})
+}
+
+// TestConcurrentConsumer lets a consumer receive in a tight loop, on its own goroutine, while the writer issues
+// thousands of small writes: producer and consumer really run in parallel inside the bubble, so windows between two
+// channel operations of the writer are hit. If a Write (or Close) ever waits for something the consumer cannot
+// provide, every goroutine of the bubble ends up blocked and the bubble reports it - no wall-clock timeout involved.
+func TestConcurrentConsumer(t *testing.T) {
+	rt.Check(t, 40, 4000, func(t *rapid.T) {
+		writes := rapid.SampledFrom([]int{200, 2000, 10000}).Draw(t, "writes")
+		pace := rapid.IntRange(0, 2).Draw(t, "consumerPace")
+		useString := rapid.Bool().Draw(t, "useString")
+		stringable := rapid.Bool().Draw(t, "stringWriter")
+		var msg string
+		received, total := 0, 0
+		func() {
+			defer func() {
+				if r := recover(); r != nil {
+					m := fmt.Sprint(r)
+					if e, ok := r.(error); ok {
+						m = e.Error()
+					}
+					if strings.Contains(m, "deadlock") || strings.Contains(m, "blocked goroutines remain") {
+						msg = "a Write or Close blocked while a consumer was receiving concurrently (bubble: " + firstLine(m) + ")"
+						return
+					}
+					panic(r)
+				}
+			}()
+			rapid.SyncTest(t, func(t *rapid.T) {
+				var inner io.Writer = &plainWriter{}
+				if stringable {
+					inner = &stringWriter{}
+				}
+				pw := ioutil.NewProgressWriter(inner)
+				status := pw.Status()
+				done := make(chan struct{})
+				var got []int
+				go func() {
+					defer close(done)
+					for v := range status {
+						got = append(got, v)
+						for i := 0; i < pace; i++ {
+							runtime.Gosched()
+						}
+					}
+				}()
+				for i := 0; i < writes; i++ {
+					var n int
+					var err error
+					if useString {
+						n, err = pw.WriteString("ab")
+					} else {
+						n, err = pw.Write([]byte("ab"))
+					}
+					if n != 2 || err != nil {
+						msg = fmt.Sprintf("write #%d returned (%d, %v)", i, n, err)
+						break
+					}
+					total += 2
+					if pw.Size() != total {
+						msg = fmt.Sprintf("after write #%d Size() = %d, want %d", i, pw.Size(), total)
+						break
+					}
+				}
+				pw.Close()
+				<-done
+				received = len(got)
+				prev := 0
+				for i, v := range got {
+					if v < prev || v%2 != 0 || v > total {
+						msg = fmt.Sprintf("received value #%d = %d after %d (total %d): not a non-decreasing prefix sum", i, v, prev, total)
+					}
+					prev = v
+				}
+				if msg == "" && (len(got) == 0 || got[len(got)-1] != total) {
+					msg = fmt.Sprintf("last received value %v, want the final total %d", got[max(0, len(got)-3):], total)
+				}
+			})
+		}()
+		if msg != "" {
+			t.Fatalf("%s (writes=%d consumerPace=%d useString=%v stringWriter=%v)", msg, writes, pace, useString, stringable)
+		}
+		ev.Label("concurrent_consumer")
+		ev.Case(received > 1 && received < writes, ev.Hash("conc", fmt.Sprint(writes, pace, useString, stringable, received)), func() string {
+			return fmt.Sprintf("concurrent consumer: %d writes, pace %d, received %d values", writes, pace, received)
+		})
 	})
 }
